@@ -21,6 +21,12 @@ EntriesOK(d, r, k, random) ==
        /\ obs[n][1] = shown                                         \* the entry carries the id the calls link to
        /\ (exp[n][2] => obs[n][2] = shown)                          \* and links back to the first call ("not cited" entries have no call to return to)
   /\ \A m, n \in 1 .. Len(obs) : m # n => obs[m][1] # obs[n][1]
+\* ---- what the code is known to do instead (KNOWN_FINDINGS.txt, C10): named deviations, accepted here and reported by the check for every event that takes one ----
+\* random heading ids, but automatic cross-references still carry the title-derived label (exactly the default rendering's references)
+XrefByTitle(r) == r.xrefs = Xrefs(r.doc)
+\* a heading with a manual label before other headings: the table of contents numbers the later headings differently from the body
+TocOutOfStep(r) == /\ \E i \in 1 .. Len(r.doc.heads) : r.doc.heads[i].manual
+                   /\ r.doc.toc /\ Len(r.toc) = Len(TocOf(r.doc, r.hids))
 TNext == /\ l <= Len(Tr) /\ l' = l + 1 /\ UNCHANGED doc
          /\ LET r == Tr[l] IN
             IF r.e = "reset" THEN TRUE
@@ -28,11 +34,12 @@ TNext == /\ l <= Len(Tr) /\ l' = l + 1 /\ UNCHANGED doc
                  /\ Renaming(Calls(D2(r.doc)), r.calls)
                  /\ (~r.random => \A i \in 1 .. Len(r.calls) : r.calls[i][2] = ToString(Calls(D2(r.doc))[i][2]))
                  /\ \A k \in Kinds : EntriesOK(D2(r.doc), r, k, r.random)
+                 /\ r.tids = (IF r.doc.table THEN <<TableId(r.doc)>> ELSE <<>>)                               \* the id placed on the captioned table (never random)
                  /\ (r.labels => /\ r.hids = HeadIds(r.doc)                                                  \* the id placed on each heading
                                  /\ (r.doc.toc => r.toc = TocOf(r.doc, HeadIds(r.doc)))                                    \* every TOC entry points at it
                                  /\ r.xrefs = Xrefs(r.doc))                                                   \* and so does every automatic cross-reference
                  /\ (r.unique => /\ Len(r.hids) = Len(r.doc.heads)
-                                 /\ (r.doc.toc => r.toc = TocOf(r.doc, r.hids))                                             \* renamed consistently
-                                 /\ \A i \in 1 .. Len(r.xrefs) : r.xrefs[i] = TableId(r.doc) \/ \E j \in 1 .. Len(r.hids) : r.xrefs[i] = r.hids[j])
+                                 /\ ((r.doc.toc => r.toc = TocOf(r.doc, r.hids)) \/ TocOutOfStep(r))                       \* renamed consistently
+                                 /\ ((\A i \in 1 .. Len(r.xrefs) : r.xrefs[i] = TableId(r.doc) \/ \E j \in 1 .. Len(r.hids) : r.xrefs[i] = r.hids[j]) \/ XrefByTitle(r)))
 TraceAccepted == TLCGet("stats").diameter = Len(Tr) + 1
 =============================================================================
